@@ -274,6 +274,9 @@ PROPS["C18"] = dict(
     trusted_base=_SRV_TB, assumptions=["time bounds: Start within 2 s, reachability within 5 s, Stop within 30 s, ports free within 1 s"],
 )
 
+PROPS["C10"]["shape"] = True
+PROPS["C10"]["extra_modules"] = ["TV.ShapeOK.Publisher"]
+
 HOOK_COMMITS = []
 
 _ALL = ["C%02d" % i for i in range(1, 21)]
